@@ -134,7 +134,7 @@ func runPlan(t *testing.T, p *Plan, c *checker) {
 			c.step = si
 			switch st.Op {
 			case "spawn":
-				e := &entry{idx: len(reg), kind: st.Kind, depth: st.Depth, locked: st.Locked, creator: st.Creator % 3, alive: true, minutes: st.Minutes,
+				e := &entry{idx: len(reg), kind: st.Kind, depth: st.Depth, locked: st.Locked, creator: st.Creator % 4, alive: true, minutes: st.Minutes,
 					ch: make(chan int), ch2: make(chan int), started: make(chan struct{})}
 				e.cond = sync.NewCond(&e.mu)
 				if e.kind == "wg" {
@@ -147,8 +147,10 @@ func runPlan(t *testing.T, p *Plan, c *checker) {
 					spawnA(e)
 				case 1:
 					spawnB(e)
-				default:
+				case 2:
 					spawnC(e)
+				default:
+					spawnD(e)
 				}
 				<-e.started
 				c.probes["spawn:"+e.kind]++
@@ -244,6 +246,9 @@ func runPlan(t *testing.T, p *Plan, c *checker) {
 			}
 			skipWait = false
 			synctest.Wait()
+			// a request that was to park at its capture but was rejected before it
+			// got there must not leave the mark for the next request
+			parkNext = nil
 			for _, e := range reg {
 				if e.fresh {
 					select {
